@@ -10,6 +10,12 @@ def jobs(tier):
             native_link=['-logg'],witnesses=['round trip accepted'],models=M,
             functions=['vorbis_commentheader_out','_vorbis_pack_comment','_v_writestring','vorbis_synthesis_headerin','_vorbis_unpack_comment','_v_readstring','vorbis_comment_clear'],
             bounds='%d comments with lengths %s (configuration), every byte symbolic incl. NUL; packet < 256 B'%(nc,ls)))
+    pv=[(2,(1,2,0)),(3,(4,0,3))] if tier=='quick' else [(2,(1,2,0)),(3,(4,0,3)),(3,(4,4,4)),(1,(0,0,0)),(0,(0,0,0))]
+    for nc,ls in pv:
+        J.append(Job('cm-pack-n%d-%d%d%d'%(nc,ls[0],ls[1],ls[2]),'C16/cm_pack.c',defs=['-DNC=%d'%nc,'-DL0=%d'%ls[0],'-DL1=%d'%ls[1],'-DL2=%d'%ls[2],'-DOGGPACK_MODEL_CAP=256'],
+            unwind=20,unwindset=[('_v_writestring',None,60),('strlen',None,60),('verif_memcpy',None,130),('harness',r'i<vl',60),('harness',r'i<en',130)],
+            native_link=['-logg'],witnesses=['packed'],models=M,functions=['vorbis_commentheader_out','_vorbis_pack_comment','_v_writestring'],
+            bounds='%d comments with lengths %s (configuration), every byte symbolic incl. NUL'%(nc,ls)))
     pk=[19,21] if tier=='quick' else [19,21,23,24]
     for p in pk:
         J.append(Job('cm-unpack-%d'%p,'C16/cm_unpack.c',defs=['-DPKT=%d'%p],unwind=8,unwindset=[('_v_readstring',None,p-7),('_vorbis_unpack_comment',None,max(p-15,0)//4+2),('harness',None,p//4+2),('vorbis_comment_clear',None,max(p-15,0)//4+2)],
